@@ -297,6 +297,37 @@ def run_purgeops_inductive(cmd='restore', mutant='none', timeout=600):
         shutil.rmtree(d, ignore_errors=True)
 
 
+def run_tlaps(module='DatesProof', mutate=None, timeout=300):
+    """TLAPS (tlapm, back end Z3): check the proofs of spec/<module>.tla.  mutate = (old, new): replace text in the copied
+    spec files first (the self-test proves that a wrong statement is refused).
+    -> {'ok': bool, 'obligations': n proved, 'failed': n, 'wall': seconds, 'detail': str}"""
+    import os, re, shutil, subprocess, tempfile, time
+    t0 = time.time()
+    d = tempfile.mkdtemp(prefix='vtlaps-', dir='/dev/shm' if os.path.isdir('/dev/shm') else None)
+    try:
+        for f in os.listdir(tlc.SPEC_DIR):
+            if f.endswith('.tla'):
+                text = open(os.path.join(tlc.SPEC_DIR, f)).read()
+                if mutate and mutate[0] in text:
+                    text = text.replace(mutate[0], mutate[1])
+                with open(os.path.join(d, f), 'w') as g:
+                    g.write(text)
+        try:
+            p = subprocess.run(['tlapm', '--threads', '8', '--nofp', module + '.tla'], cwd=d, stdout=subprocess.PIPE,
+                               stderr=subprocess.STDOUT, timeout=timeout)
+        except (subprocess.TimeoutExpired, OSError) as e:
+            return {'ok': False, 'obligations': 0, 'failed': -1, 'wall': time.time() - t0, 'detail': repr(e)}
+        out = p.stdout.decode('utf-8', 'replace')
+        m = re.search(r'All (\d+) obligations? proved', out)
+        if m and p.returncode == 0:
+            return {'ok': True, 'obligations': int(m.group(1)), 'failed': 0, 'wall': time.time() - t0, 'detail': ''}
+        m = re.search(r'(\d+)/(\d+) obligations? failed', out)
+        return {'ok': False, 'obligations': int(m.group(2)) - int(m.group(1)) if m else 0, 'failed': int(m.group(1)) if m else -1,
+                'wall': time.time() - t0, 'detail': out[-1500:]}
+    finally:
+        shutil.rmtree(d, ignore_errors=True)
+
+
 def run_putempty(name, with_days=True, emutant='none', invariants=('FreshKept', 'FreshInfoFirst'), procs=('p1',), slots=('n', 'n1'),
                  preinfo=(('t', 'n1'),), prepay=(('t', 'n1'),), workers=4, timeout=900):
     """trash-put concurrent with trash-empty [DAYS] (spec/PutEmpty.tla)"""
